@@ -1006,6 +1006,8 @@ package mocrelay
 //@ func EventCache.delete
 //@   serves C04 C05 C15
 //@   requires held(c.mu) == 2 && cacheWF(c)
+//@   requires regCore(c)
+//@   ensures[C05] regCore(c)
 //@   writes contents(c.evs), contents(c.deleted), eachkey(k, c.deleted, contents(c.deleted[k])), contents(c.evsIndex.idx), eachkey(k, c.evsIndex.idx, contents(c.evsIndex.idx[k])), ghost(tmdom, c.evsCreatedAt), ghost(tmval, c.evsCreatedAt), ghost(tmsize, c.evsCreatedAt)
 //@   ensures[C05] deleted == (old(has(c.evs, delEvKey.EventKey)) && old(c.evs[delEvKey.EventKey]).Pubkey == delEvKey.Pubkey)
 //@   ensures[C04] all(k, string, k != delEvKey.EventKey ==> (has(c.evs, k) == old(has(c.evs, k)) && c.evs[k] == old(c.evs[k])))
@@ -1014,15 +1016,20 @@ package mocrelay
 //@   ensures[C04] cacheWF(c)
 //@   ensures[C05] all(k, eventCacheDeletedEventKey, has(c.deleted, k) ==> (old(has(c.deleted, k)) && c.deleted[k] == old(c.deleted[k])))
 //@   ensures all(k, eventCacheEvsIndexKey, has(c.evsIndex.idx, k) ==> (old(has(c.evsIndex.idx, k)) && c.evsIndex.idx[k] == old(c.evsIndex.idx[k])))
-//@   loop 1
+//@   loop 1 as n
 //@     lwrites contents(c.deleted), eachkey(k, c.deleted, contents(c.deleted[k]))
 //@     invariant all(k, eventCacheDeletedEventKey, has(c.deleted, k) ==> (old(has(c.deleted, k)) && c.deleted[k] == old(c.deleted[k])))
+//@     invariant[C05] all(k, eventCacheDeletedEventKey, has(c.deleted, k) ==> any(id, string, has(c.deleted[k], id)))
+//@     invariant[C05] all(k, eventCacheDeletedEventKey, all(id, string, (has(c.deleted, k) && has(c.deleted[k], id)) == (old(has(c.deleted, k)) && old(has(c.deleted[k], id)) && !(id == cand.ID && k.Pubkey == cand.Pubkey && exists(j, 0, n, keys[j] == k.EventKey)))))
 
 //@ func EventCache.add
 //@   serves C04 C15
 //@   uses id_determines_address
 //@   opt merge=off
 //@   requires held(c.mu) == 2 && cacheWF(c) && wfEvent(event) && !isEphemeralKind(event.Kind) && eventKey == cacheKeyOf(event)
+//@   requires regCore(c)
+//@   ensures[C05] regOK(c) && regSep(c) && regCompleteExcept(c, event)
+//@   ensures[C05] !added ==> regCore(c)
 //@   writes contents(c.evs), contents(c.deleted), eachkey(k, c.deleted, contents(c.deleted[k])), contents(c.evsIndex.idx), eachkey(k, c.evsIndex.idx, contents(c.evsIndex.idx[k])), ghost(tmdom, c.evsCreatedAt), ghost(tmval, c.evsCreatedAt), ghost(tmsize, c.evsCreatedAt)
 //@   ensures[C04] added == !(old(has(c.evs, eventKey)) && old(c.evs[eventKey]).CreatedAt >= event.CreatedAt)
 //@   ensures[C04] added ==> (has(c.evs, eventKey) && c.evs[eventKey] == event && len(c.evs) == old(len(c.evs)) + ite(old(has(c.evs, eventKey)), 0, 1))
@@ -1035,15 +1042,25 @@ package mocrelay
 //@ func EventCache.addKind5
 //@   serves C05 C15
 //@   requires held(c.mu) == 2 && cacheShape(c) && event != nil
+//@   requires event.Kind == 5 && has(c.evs, event.ID) && c.evs[event.ID] == event && regOK(c) && regSep(c) && regCompleteExcept(c, event)
+//@   ensures[C05] regCore(c)
 //@   writes contents(c.deleted), eachkey(k, c.deleted, contents(c.deleted[k]))
 //@   ensures all(k, eventCacheDeletedEventKey, has(c.deleted, k) ==> ((old(has(c.deleted, k)) && c.deleted[k] == old(c.deleted[k])) || fresh(c.deleted[k])))
-//@   loop 1
+//@   loop 1 as n
 //@     lwrites contents(c.deleted), eachkey(k, c.deleted, contents(c.deleted[k]))
 //@     invariant all(k, eventCacheDeletedEventKey, has(c.deleted, k) ==> ((old(has(c.deleted, k)) && c.deleted[k] == old(c.deleted[k])) || lfresh(c.deleted[k])))
+//@     invariant[C05] regSep(c)
+//@     invariant[C05] regCompleteExcept(c, event)
+//@     invariant[C05] all(k, eventCacheDeletedEventKey, has(c.deleted, k) ==> c.deleted[k] != nil)
+//@     invariant[C05] all(k, eventCacheDeletedEventKey, has(c.deleted, k) ==> any(id, string, has(c.deleted[k], id)))
+//@     invariant[C05] all(k, eventCacheDeletedEventKey, all(id, string, (has(c.deleted, k) && has(c.deleted[k], id)) ==> regEntryOK(c, k, id)))
+//@     invariant[C05] forall(j, 0, n, has(c.deleted, delKey(keys[j], event.Pubkey)) && has(c.deleted[delKey(keys[j], event.Pubkey)], event.ID))
 
 //@ func EventCache.deleteByKind5
 //@   serves C04 C05 C15
 //@   requires held(c.mu) == 2 && cacheWF(c) && event != nil
+//@   requires regCore(c)
+//@   ensures[C05] regCore(c)
 //@   writes contents(c.evs), contents(c.deleted), eachkey(k, c.deleted, contents(c.deleted[k])), contents(c.evsIndex.idx), eachkey(k, c.evsIndex.idx, contents(c.evsIndex.idx[k])), ghost(tmdom, c.evsCreatedAt), ghost(tmval, c.evsCreatedAt), ghost(tmsize, c.evsCreatedAt)
 //@   ensures[C04] cacheWF(c) && len(c.evs) <= old(len(c.evs))
 //@   ensures[C05] all(k, string, has(c.evs, k) ==> (old(has(c.evs, k)) && c.evs[k] == old(c.evs[k])))
@@ -1054,6 +1071,7 @@ package mocrelay
 //@   loop 1 as n
 //@     lwrites contents(c.evs), contents(c.deleted), eachkey(k, c.deleted, contents(c.deleted[k])), contents(c.evsIndex.idx), eachkey(k, c.evsIndex.idx, contents(c.evsIndex.idx[k])), ghost(tmdom, c.evsCreatedAt), ghost(tmval, c.evsCreatedAt), ghost(tmsize, c.evsCreatedAt)
 //@     invariant cacheWF(c) && len(c.evs) <= old(len(c.evs))
+//@     invariant[C05] regCore(c)
 //@     invariant all(k, string, has(c.evs, k) ==> (old(has(c.evs, k)) && c.evs[k] == old(c.evs[k])))
 //@     invariant all(k, string, (old(has(c.evs, k)) && !has(c.evs, k)) ==> (refsKey(event, k) && old(c.evs[k]).Pubkey == event.Pubkey))
 //@     invariant all(k, string, (exists(j, 0, n, keys[j] == k) && old(has(c.evs, k)) && old(c.evs[k]).Pubkey == event.Pubkey) ==> !has(c.evs, k))
@@ -1062,7 +1080,7 @@ package mocrelay
 
 //@ func EventCache.Add
 //@   serves C04 C05 C15 C16
-//@   uses id_determines_address
+//@   uses id_determines_address key_determines_author
 //@   requires c != nil && wfEvent(event) && held(c.mu) == 0
 //@   writes contents(c.evs), contents(c.deleted), eachkey(k, c.deleted, contents(c.deleted[k])), contents(c.evsIndex.idx), eachkey(k, c.evsIndex.idx, contents(c.evsIndex.idx[k])), ghost(tmdom, c.evsCreatedAt), ghost(tmval, c.evsCreatedAt), ghost(tmsize, c.evsCreatedAt), ghost(lastadd, c), ghost(addlog, c), lock(c.mu)
 //@   ensures[C15] held(c.mu) == 0
@@ -1071,6 +1089,13 @@ package mocrelay
 //@   ensures[C04] !isEphemeralKind(event.Kind) ==> added == !(old(suppressed(c, cacheKeyOf(event), event.Pubkey)) || (old(has(c.evs, cacheKeyOf(event))) && old(c.evs[cacheKeyOf(event)]).CreatedAt >= event.CreatedAt))
 //@   ensures[C04] all(k, string, (has(c.evs, k) && !(old(has(c.evs, k)) && c.evs[k] == old(c.evs[k]))) ==> (added && k == cacheKeyOf(event) && c.evs[k] == event))
 //@   ensures[C04] all(k, string, (old(has(c.evs, k)) && !(has(c.evs, k) && c.evs[k] == old(c.evs[k]))) ==> (added && leaveReason(c, event, k, old(c.evs[k]), old(len(c.evs)))))
+//@   ensures[C04] (added && !isEphemeralKind(event.Kind) && !stillThere(c, cacheKeyOf(event), event)) ==> ((event.Kind == 5 && refsKey(event, cacheKeyOf(event))) || evictedReason(c, event, old(len(c.evs))))
+//@   ensures[C05] all(k, string, (old(has(c.evs, k)) && !stillThere(c, k, old(c.evs[k])) && !evictedReason(c, old(c.evs[k]), old(len(c.evs)))) ==> old(c.evs[k]).Pubkey == event.Pubkey)
+//@   ensures[C05] (!isEphemeralKind(event.Kind) && old(suppressed(c, cacheKeyOf(event), event.Pubkey))) ==> any(id, string, old(has(c.evs, id)) && old(c.evs[id]).Kind == 5 && old(c.evs[id]).Pubkey == event.Pubkey && refsKey(old(c.evs[id]), cacheKeyOf(event)))
+//@   ensures[C05] all(id, string, (!isEphemeralKind(event.Kind) && old(has(c.evs, id)) && old(c.evs[id]).Kind == 5 && old(c.evs[id]).Pubkey == event.Pubkey && refsKey(old(c.evs[id]), cacheKeyOf(event))) ==> !added)
+//@   ensures[C05] all(k, string, (added && event.Kind == 5 && old(has(c.evs, k)) && old(c.evs[k]).Pubkey == event.Pubkey && refsKey(event, k)) ==> !stillThere(c, k, old(c.evs[k])))
+//@   ensures[C05] all(k, string, (added && event.Kind == 5 && old(has(c.evs, k)) && old(c.evs[k]).Pubkey == event.Pubkey && properRef(event, old(c.evs[k]))) ==> !stillThere(c, k, old(c.evs[k])))
+//@   ensures[C05] all(k, string, (old(has(c.evs, k)) && !stillThere(c, k, old(c.evs[k]))) ==> ((k == cacheKeyOf(event) && old(c.evs[k]).CreatedAt < event.CreatedAt) || evictedReason(c, old(c.evs[k]), old(len(c.evs))) || (event.Kind == 5 && old(c.evs[k]).Pubkey == event.Pubkey && properRef(event, old(c.evs[k])))))
 //@   promises added == g(lastadd, c)
 //@   promises all(k, eventCacheDeletedEventKey, has(c.deleted, k) ==> ((old(has(c.deleted, k)) && c.deleted[k] == old(c.deleted[k])) || fresh(c.deleted[k])))
 //@   promises all(k, eventCacheEvsIndexKey, has(c.evsIndex.idx, k) ==> ((old(has(c.evsIndex.idx, k)) && c.evsIndex.idx[k] == old(c.evsIndex.idx[k])) || fresh(c.evsIndex.idx[k])))
